@@ -2,6 +2,7 @@ import IsoVerif.Driver.Core
 import IsoVerif.Model.C09
 import IsoVerif.Model.C09Labels
 import IsoVerif.Model.C09Tpm
+import IsoVerif.Model.C09Files
 
 namespace IsoVerif.Driver.C09
 open Lean IsoVerif.Driver IsoVerif.Gen IsoVerif.Model.C09
@@ -179,15 +180,11 @@ def growthOps : List (String × Handler) := [
   ("labels_yaml", fun j => do
       let pfx ← jStr (← arg j "prefix")
       let es ← jList jYEntry (← arg j "entries")
-      -- entries whose labels are all strings go through C10's parser; a non-string label is reported per entry
+      -- `str(label)`: every label is stored by its printed value (repaired get_samples_from_yaml)
       let conv := es.map (fun e =>
-        let labs := match e.2.2 with
-          | none => some none
-          | some ls => (yamlLabelsStr ls).map some
-        labs.map (fun l => (⟨e.1, e.2.1.map (fun fs => fs.map mkInFile), l, none⟩ : IsoVerif.Model.C10.YamlEntry)))
-      if conv.all Option.isSome then
-        pure (ofParsedSamples (IsoVerif.Model.C10.parseYaml pfx (conv.filterMap id)))
-      else pure (Json.mkObj [("non_string_label", ofBool true)])),
+        (⟨e.1, e.2.1.map (fun fs => fs.map mkInFile), e.2.2.map (fun ls => ls.map TagVal.render), none⟩ :
+          IsoVerif.Model.C10.YamlEntry))
+      pure (ofParsedSamples (IsoVerif.Model.C10.parseYaml pfx conv))),
   ("file_mode", fun j => do
       let d ← jList jStrPair (← arg j "dict")
       let libs ← jList (jList jStr) (← arg j "libs")
@@ -203,6 +200,13 @@ def growthOps : List (String × Handler) := [
       let un ← jBool (← arg j "usable_norm")
       let rt ← jNat (← arg j "reads_for_tpm")
       pure (ofExcept (ofList (fun r => Json.arr #[ofStr r.1, ofList ofRat r.2])) (groupedTpm un rt rows))),
+  ("load_split_table", fun j => do
+      let t ← jStr (← arg j "content")
+      pure (ofExcept (ofList (fun p => Json.arr #[ofStr p.1, ofStr p.2])) (loadSplitTable t.toList))),
+  ("groups_file", fun j => do
+      let gs ← jList jStr (← arg j "groups")
+      let text := groupsFileText gs
+      pure (Json.mkObj [("content", ofStr (String.ofList text)), ("reread", sortedStrs (readGroupsFile text))])),
   ("split_table_global", fun j => do
       let m ← jList jStrPair (← arg j "map")
       let chr ← jStr (← arg j "chr")
